@@ -500,7 +500,8 @@ def run(ctx):
                               "signals to 0-4 rules incl. the sender's own), then random histories (2-5 clients, 0-%d events, 1-3 names, limits 512/3/2, 128/2/1) with a random request under test; "
                               "pairs of failures (gaps 1, 2-6, 7-40) on a sample" % (len(targeted_cases()), 10 if tier == "quick" else 16),
         "traces_validated_against_impl": stats["cases"],
-        "disagreements_checked": "every outcome of every failing index goes through the model-independent oracle; model/implementation disagreement and oracle failures outside the recorded findings are violations",
+        "disagreements_checked": len(rep.violations),
+        "disagreements_rule": "every outcome of every failing index goes through the model-independent oracle; model/implementation disagreement and oracle failures outside the recorded findings are violations",
         "explanation": "PROVED (Coq, all states satisfying the invariant, all failure sets): atomicity and retry for the request classes listed in notes/C14.md (safe classes), all-or-nothing "
                        "delivery of staged messages for every request, refutation witnesses for the unsafe classes (F10a-c, F14.1). EXPLORED ONLY (harness): that the real allocator-level behaviour "
                        "matches the model's outcome sequence, 'leaks nothing' (_dbus_get_malloc_blocks_outstanding() == 0 after teardown + dbus_shutdown for every failing index, ASan for stale uses; "
